@@ -1,10 +1,179 @@
-/- driver for C11 : to be filled in (stub keeps Main.lean compiling) -/
+/- driver for C11 (dimensional collapse), Float instantiation of Model/Collapse -/
 import MysticVerif.Basic.Proto
+import MysticVerif.Model.Collapse
 
 namespace MysticVerif.DrvC11
-open MysticVerif
+open MysticVerif MysticVerif.Clps
+
+def parseRows (v : Val) : Option (List (List Float)) := do
+  let l ← v.asList?
+  l.mapM Val.asFloats?
+
+def optInt? : Val → Option (Option Int)
+  | .sym "none" => some none
+  | .int i => some (some i)
+  | _ => none
+
+def parseTarget : Val → Option (Target Float)
+  | .sym "none" => some .none
+  | .list [.sym "s", t] => do pure (.scalar (← t.asFloat?))
+  | .list [.sym "v", ts] => do pure (.vec (← ts.asFloats?))
+  | _ => none
+
+def parseElem : Val → Option MElem
+  | .int i => some (.idx i)
+  | .list (.sym "q" :: is) => do pure (.seq (← is.mapM Val.asInt?))
+  | _ => none
+
+def parseSetMask : Val → Option SetMask
+  | .sym "none" => some .none
+  | .sym "other" => some .other
+  | .list [.sym "set", .list es] => do pure (.set (← es.mapM parseElem))
+  | _ => none
+
+def parseNpts : Val → Option (Option (List Nat))
+  | .sym "none" => some none
+  | .list [.sym "p", ns] => do pure (some (← ns.asNats?))
+  | _ => none
+
+def parseWMask : Val → Option WMask
+  | .sym "none" => some .none
+  | .sym "other" => some .other
+  | .sym "empty" => some .empty
+  | .list [.sym "set", .list es] => do
+      pure (.set (← es.mapM fun
+        | .sym "bad" => some none
+        | .list [.int a, .int b] => some (some (a, b))
+        | _ => none))
+  | .list [.sym "dict", .list es] => do
+      pure (.dict (← es.mapM fun
+        | .sym "bad" => some none
+        | .list [.int a, is] => do pure (some (a, ← is.asInts?))
+        | _ => none))
+  | .list [.sym "where", ms, is] => do pure (.wher (← ms.asInts?) (← is.asInts?))
+  | _ => none
+
+def parsePair : Val → Option (Int × Int)
+  | .list [.int a, .int b] => some (a, b)
+  | _ => none
+
+def parsePMask : Val → Option PMask
+  | .sym "none" => some .none
+  | .sym "other" => some .other
+  | .sym "empty" => some .empty
+  | .list [.sym "set", .list es] => do
+      pure (.set (← es.mapM fun
+        | .sym "bad" => some none
+        | .list [.int a, is] => do pure (some (a, ← is.asInts?))
+        | _ => none))
+  | .list [.sym "dict", .list es] => do
+      pure (.dict (← es.mapM fun
+        | .sym "bad" => some none
+        | .list [.int a, .list ps] => do pure (some (a, ← ps.mapM parsePair))
+        | _ => none))
+  | .list [.sym "where", ms, .list ps, t] => do
+      pure (.wher (← ms.asInts?) (← ps.mapM Val.asInts?) (← t.asBool?))
+  | _ => none
+
+def pPairs (l : List (Nat × Nat)) : String :=
+  "(" ++ " ".intercalate (l.map fun p => s!"({p.1} {p.2})") ++ ")"
+
+def pTriples (l : List (Nat × Nat × Nat)) : String :=
+  "(" ++ " ".intercalate (l.map fun p => s!"({p.1} {p.2.1} {p.2.2})") ++ ")"
+
+/-! masks of `update_mask` requests: elements are integer tuples -/
+abbrev El := List Int
+
+def parseEls (v : Val) : Option (List El) := do
+  let l ← v.asList?
+  l.mapM Val.asInts?
+
+def parseMaskV : Val → Option (MaskV El)
+  | .sym "none" => some .none
+  | .sym "emptyseq" => some .emptyseq
+  | .list [.sym "set", es] => do pure (.set (← parseEls es))
+  | .list [.sym "dict", .list kvs] => do
+      pure (.dict (← kvs.mapM fun
+        | .list [.int k, es] => do pure (k, ← parseEls es)
+        | _ => none))
+  | .list [.sym "where", t, ms, es] => do pure (.wher (← t.asBool?) (← ms.asInts?) (← parseEls es))
+  | _ => none
+
+def parsePrim : Val → Option (Prim El)
+  | .list [.sym "p", ty, kw, hm, m] => do
+      pure { ty := ← ty.asNat?, kw := ← kw.asNat?, hasMask := ← hm.asBool?, mask := ← parseMaskV m }
+  | _ => none
+
+partial def parseCond : Val → Option (Cond El)
+  | .list (.sym "n" :: cs) => do pure (.node (← cs.mapM parseCond))
+  | v => do pure (.prim (← parsePrim v))
+
+def pEl (e : El) : String := "(" ++ " ".intercalate (e.map toString) ++ ")"
+def pEls (l : List El) : String := "(" ++ " ".intercalate (l.map pEl) ++ ")"
+
+def pMaskV : MaskV El → String
+  | .none => "none"
+  | .emptyseq => "emptyseq"
+  | .set es => s!"(set {pEls es})"
+  | .dict d => "(dict (" ++ " ".intercalate (d.map fun kv => s!"({kv.1} {pEls kv.2})") ++ "))"
+  | .wher t ms es => s!"(where {pB t} {pIs ms} {pEls es})"
+
+partial def pCond : Cond El → String
+  | .prim p => s!"(p {p.ty} {p.kw} {pB p.hasMask} {pMaskV p.mask})"
+  | .node cs => "(n" ++ String.join (cs.map fun c => " " ++ pCond c) ++ ")"
 
 def handle : Handler
+  | .sym "at" :: args => Id.run do
+    let some hist := (kw? args "hist").bind parseRows | return "bad-op"
+    let some tgt := (kw? args "target").bind parseTarget | return "bad-op"
+    let some tols := (kw? args "tols").bind Val.asFloats? | return "bad-op"
+    let some g := (kw? args "gen").bind optInt? | return "bad-op"
+    let some mask := (kw? args "mask").bind parseSetMask | return "bad-op"
+    match collapseAt hist tgt tols g mask with
+    | .ok l => return s!"ok idx={pNs l}"
+    | .error e => return s!"err {e.str}"
+  | .sym "as" :: args => Id.run do
+    let some hist := (kw? args "hist").bind parseRows | return "bad-op"
+    let some off := (kw? args "offset").bind Val.asBool? | return "bad-op"
+    let some tol := (kw? args "tol").bind Val.asFloat? | return "bad-op"
+    let some g := (kw? args "gen").bind optInt? | return "bad-op"
+    let some mask := (kw? args "mask").bind parseSetMask | return "bad-op"
+    match collapseAs hist off tol g mask with
+    | .ok l => return s!"ok pairs={pPairs l}"
+    | .error e => return s!"err {e.str}"
+  | .sym "weight" :: args => Id.run do
+    let some hist := (kw? args "hist").bind parseRows | return "bad-op"
+    let some npts := (kw? args "npts").bind parseNpts | return "bad-op"
+    let some tol := (kw? args "tol").bind Val.asFloat? | return "bad-op"
+    let some g := (kw? args "gen").bind optInt? | return "bad-op"
+    let some mask := (kw? args "mask").bind parseWMask | return "bad-op"
+    match collapseWeight hist npts tol g mask with
+    | .ok r => return s!"ok fmt={r.1.str} hits={pPairs r.2}"
+    | .error e => return s!"err {e.str}"
+  | .sym "position" :: args => Id.run do
+    let some hist := (kw? args "hist").bind parseRows | return "bad-op"
+    let some npts := (kw? args "npts").bind parseNpts | return "bad-op"
+    let some tol := (kw? args "tol").bind Val.asFloat? | return "bad-op"
+    let some g := (kw? args "gen").bind optInt? | return "bad-op"
+    let some mask := (kw? args "mask").bind parsePMask | return "bad-op"
+    match collapsePosition hist npts tol g mask with
+    | .ok r => return s!"ok fmt={r.1.str} hits={pTriples r.2}"
+    | .error e => return s!"err {e.str}"
+  | .sym "update" :: args => Id.run do
+    let some c := (kw? args "cond").bind parseCond | return "bad-op"
+    let some cl := (kw? args "collapse").bind Val.asList? |>.bind (·.mapM fun
+        | .list [k, m] => do pure (← parsePrim k, ← parseMaskV m)
+        | _ => none) | return "bad-op"
+    match updateMask c cl with
+    | .ok c' => return s!"ok cond={pCond c'}"
+    | .error e => return s!"err {e.str}"
+  | .sym "loop" :: args => Id.run do
+    -- the abstract collapse loop: reports per round, universe size
+    let some n := (kw? args "n").bind Val.asNat? | return "bad-op"
+    let some mask := (kw? args "mask").bind Val.asNats? | return "bad-op"
+    let some reps := (kw? args "reports").bind Val.asList? |>.bind (·.mapM Val.asNats?) | return "bad-op"
+    let r := Loop.run n mask reps
+    return s!"ok rounds={r.1} mask={pNs r.2}"
   | _ => "bad-op"
 
 end MysticVerif.DrvC11
